@@ -586,6 +586,37 @@ def z_pow(a, b, c=None):
     return builtins.pow(a, b) if c is None else builtins.pow(a, b, c)
 
 
+class _TypeShim:
+    """callable stand-in for a builtin type name (int/str/bytes/bytearray) in instrumented module globals: calling it runs the model, every other
+    attribute (int.from_bytes, bytes.fromhex, str.maketrans, ...) is taken from the real type unless a proxy-aware version is registered"""
+
+    def __init__(self, fn, real, extra=None):
+        self._fn, self._real = fn, real
+        self.__name__ = real.__name__
+        for k, v in (extra or {}).items():
+            setattr(self, k, v)
+
+    def __call__(self, *a, **k):
+        return self._fn(*a, **k)
+
+    def __getattr__(self, name):
+        return getattr(self._real, name)
+
+
+def _int_from_bytes(b, byteorder='big', *, signed=False):
+    if isinstance(b, SByteArray):
+        b = b.freeze()
+    if isinstance(b, SBytes):
+        els = list(b.els) if byteorder == 'big' else list(reversed(b.els))
+        return bytes_to_int(els, signed) if els else 0
+    return builtins.int.from_bytes(b, byteorder, signed=signed)
+
+
+_z_int_fn, _z_str_fn, _z_bytes_fn, _z_bytearray_fn = z_int, z_str, z_bytes, z_bytearray
+z_int = _TypeShim(_z_int_fn, builtins.int, {'from_bytes': _int_from_bytes})
+z_str = _TypeShim(_z_str_fn, builtins.str)
+z_bytes = _TypeShim(_z_bytes_fn, builtins.bytes)
+z_bytearray = _TypeShim(_z_bytearray_fn, builtins.bytearray)
 _UNSHIM = {z_int: int, z_str: str, z_bytes: bytes, z_bytearray: bytearray}
 
 BUILTIN_SHIMS = {
